@@ -9,7 +9,7 @@ import (
 	"hash/fnv"
 )
 
-// Stream names one of the four independent choice streams of a tape, so that
+// Stream names one of the independent choice streams of a tape, so that
 // shrinking one kind of choice does not shift the meaning of the others.
 type Stream int
 
@@ -18,10 +18,11 @@ const (
 	Cfg                 // configuration and option swarm
 	Sched               // scheduler picks and select order
 	Fault               // injected faults
+	Ext                 // features added after the first witnesses were recorded: a replay file without this stream reads zeros, i.e. "feature off", and keeps its meaning
 	NStreams
 )
 
-var StreamNames = [NStreams]string{"gen", "cfg", "sched", "fault"}
+var StreamNames = [NStreams]string{"gen", "cfg", "sched", "fault", "ext"}
 
 // splitmix64: tiny, fast, good enough, and fully specified here so that a
 // seed means the same thing under every toolchain.
